@@ -719,27 +719,63 @@ def prop_cd_failure_aborts(renderer: str, alpha: list, n, i0=0, i1=0, i2=0) -> b
         _cleanup(base)
 
 
+class _FakePipe:
+    def __init__(self, proc):
+        self.proc = proc
+
+    async def read(self, n=-1):
+        data = self.proc._drain()
+        await self.proc._exited.wait()  # EOF = the child closed its end
+        return data
+
+
 class _FakeProc:
-    returncode = 0
+    """A child that writes its output to a pipe and then exits with code 0. `big`: the output exceeds the
+    pipe capacity, so the child blocks in write() and can exit only after somebody has read the pipe
+    (what the OS does above 64 KiB); otherwise it exits at once and the output waits in the pipe."""
+
+    def __init__(self, big):
+        self.returncode = None
+        self._out = b" out\n"
+        self._exited = asyncio.Event()
+        self.stdout = _FakePipe(self)
+        if not big:
+            self._exit()
+
+    def _exit(self):
+        self.returncode = 0
+        self._exited.set()
+
+    def _drain(self):
+        data, self._out = self._out, b""
+        self._exit()
+        return data
 
     async def communicate(self):
-        return (b" out\n", b"")
+        data = self._drain()
+        await self._exited.wait()
+        return (data, None)
 
     async def wait(self):
-        return 0
+        await self._exited.wait()
+        return self.returncode
 
 
 class _PatchExec:
     """asyncio.create_subprocess_exec := recorder (the only thing below run_in_subprocess)."""
 
+    def __init__(self, big=False):
+        self.big = big
+
     def __enter__(self):
         self.calls = []
         self.old = asyncio.create_subprocess_exec
         calls = self.calls
+        big = self.big
 
         async def create_subprocess_exec(*argv, **kw):
             calls.append(list(argv))
-            return _FakeProc()
+            return _FakeProc(big)
 
         asyncio.create_subprocess_exec = create_subprocess_exec
         return self
@@ -749,10 +785,12 @@ class _PatchExec:
         return False
 
 
-def prop_local_run(alpha: list, which: int, n, i0=0, i1=0, i2=0, i3=0) -> bool:
+def prop_local_run(alpha: list, which: int, big: bool, n, i0=0, i1=0, i2=0, i3=0) -> bool:
     """The real LocalConnector.run + run_in_subprocess down to create_subprocess_exec: the process is created
     exactly once, with argv == ['sh', '-c', <create_command's line>] (the line survives shlex.quote followed
-    by shlex.split(' '.join(...)) unchanged), and the result is (stdout.strip(), returncode)."""
+    by shlex.split(' '.join(...)) unchanged), and the result is (stdout.strip(), returncode) - also when the
+    output is larger than the pipe between the child and the engine (big), i.e. the call must return."""
+    from lib.detloop import Deadlock, Livelock
 
     s = mk(alpha, n, i0, i1, i2, i3)
     value, workdir = (s, "/w/x y") if which == 0 else ("v $x", WD_PREFIX + s)
@@ -761,8 +799,11 @@ def prop_local_run(alpha: list, which: int, n, i0=0, i1=0, i2=0, i3=0) -> bool:
     conn = LocalConnector.__new__(LocalConnector)  # __init__ only probes the host's disks and memory
     loc = ExecutionLocation(name="__LOCAL__", deployment="d", local=True)
     loop = DetLoop()
-    with _PatchExec() as px, loop:
-        r = loop.run_until_complete(LocalConnector.run(conn, loc, list(ENV_CMD), environment=env, workdir=workdir, capture_output=True))
+    with _PatchExec(True if big else False) as px, loop:
+        try:
+            r = loop.run_until_complete(LocalConnector.run(conn, loc, list(ENV_CMD), environment=env, workdir=workdir, capture_output=True))
+        except (Deadlock, Livelock):
+            return False  # the call never returns: nobody reads the pipe the child is blocked on
     return px.calls == [["sh", "-c", line]] and r == ("out", 0)
 
 
@@ -1344,11 +1385,11 @@ def _specs_A(quick: bool) -> list:
         Spec(
             name="local_run",
             group=G_WRAP,
-            source=mk_source(IMPORTS, "which: int, n: int, " + ", ".join(f"i{q}: int" for q in ks), pre, "prop_local_run(ALPHA, which, n, " + ", ".join(f"i{q}" for q in ks) + ")"),
+            source=mk_source(IMPORTS, "which: int, big: bool, n: int, " + ", ".join(f"i{q}: int" for q in ks), pre, "prop_local_run(ALPHA, which, big, n, " + ", ".join(f"i{q}" for q in ks) + ")"),
             cond=cond,
             path=60,
-            bound=f"LocalConnector.run -> run_in_subprocess -> create_subprocess_exec (recorded): which=0: environment value <string>, workdir '/w/x y'; which=1: workdir '/w/' + <string>, value 'v $x'; strings of 0..{nl} characters over {ALPHA!r}",
-            symbolic="selector, length, alphabet indexes",
+            bound=f"LocalConnector.run -> run_in_subprocess -> create_subprocess_exec (recorded): which=0: environment value <string>, workdir '/w/x y'; which=1: workdir '/w/' + <string>, value 'v $x'; strings of 0..{nl} characters over {ALPHA!r}; the fake child's output fits the pipe or exceeds it (then the child exits only after the pipe has been read)",
+            symbolic="selector, pipe-overflow flag, length, alphabet indexes",
             targets=T_LOCAL,
         )
     )
